@@ -39,6 +39,14 @@ pub fn build<Q: QueueApi>(r: &Recipe) -> State<Q> {
 /// behaviour under test starts is reported under the properties of what broke it, and the case
 /// built on it is skipped (nothing about iterators, serde or capacity can be judged on it).
 pub fn build_checked<Q: QueueApi>(r: &Recipe) -> Result<State<Q>, Viol> {
+    match catch_unwind(AssertUnwindSafe(|| build_checked_inner::<Q>(r))) {
+        Ok(x) => x,
+        // a panic while building the receiver with plain pushes / removes / updates: C04 only
+        Err(_) => Err(crate::hist::panic_viol(Q::KIND, "build", &[])),
+    }
+}
+
+fn build_checked_inner<Q: QueueApi>(r: &Recipe) -> Result<State<Q>, Viol> {
     let mut st = State::<Q>::construct(&Ctor::New)?;
     for &(id, ord) in &r.pushes {
         st.exec(&Op::Push { id, ord })?;
